@@ -67,3 +67,19 @@ Theorem C08_tsid_preimage_collision_refuted :
     t1 <> t2 /\ sort_desc t1 = t1 /\ sort_desc t2 = t2 /\ preimage n t1 = preimage n t2.
 Proof. exact preimage_collision_refuted. Qed.
 Print Assumptions C08_tsid_preimage_collision_refuted.
+
+(* Any number of tags: two series that carry the same tag KEYS (one metric, one label schema, different
+   label values — the usual case) and have equal pre-images have the same name and the same tag set
+   (equal canonical sorted tag lists), provided names, keys and values contain no underscore.
+   Together with the refutation above this locates the defect exactly: merging needs different key sets
+   or an underscore. *)
+Theorem C08_tsid_preimage_injective_same_keys_guarded : forall n1 n2 (t1 t2 : list tagp),
+  map fst t1 = map fst t2 -> no_us n1 -> no_us n2 -> Forall tag_no_us t1 -> Forall tag_no_us t2 ->
+  preimage n1 t1 = preimage n2 t2 -> n1 = n2 /\ sort_desc t1 = sort_desc t2.
+Proof. exact preimage_injective_same_keys. Qed.
+Print Assumptions C08_tsid_preimage_injective_same_keys_guarded.
+Example C08_tsid_same_keys_guard_satisfiable :
+  let t1 : list tagp := [([104;111;115;116], [104;49]); ([100;99], [101;117])]%N in
+  let t2 : list tagp := [([104;111;115;116], [104;50]); ([100;99], [101;117])]%N in
+  map fst t1 = map fst t2 /\ Forall tag_no_us t1 /\ Forall tag_no_us t2 /\ preimage [99%N] t1 <> preimage [99%N] t2.
+Proof. exact preimage_same_keys_guard_sat. Qed.
